@@ -607,11 +607,16 @@ func (vc *VC) store(p SVal, T types.Type, val SVal, m *Mem) {
 		n := flatLen(T)
 		el := flatElem(T)
 		key := typeKey(el)
-		if n > 64 {
-			unsup("store of large array value")
-		}
 		vc.checkLoopStore(key, p.obj())
 		M := vc.memGet(m, key, SInt)
+		if n > 64 {
+			// a whole embedded array (its own object, offset 0) set to the zero value
+			if val.S == "((as const (Array Int Int)) 0)" && p.off() == "0" {
+				m.m[key] = vc.def("M_"+key, memSort(SInt), sto(M, p.obj(), val.S))
+				return
+			}
+			unsup("store of large array value")
+		}
 		inner := sel(M, p.obj())
 		for i := int64(0); i < n; i++ {
 			inner = sto(inner, add(p.off(), litI(i)), sel(val.S, litI(i)))
